@@ -325,7 +325,7 @@ func Acos(d Number) Number {
 // Special cases are:
 //
 //	Atan(±0) = (±0+Nϵ₁+Nϵ₂∓0ϵ₁ϵ₂)
-//	Atan(±Inf) = (±Pi/2+0ϵ₁+0ϵ₂∓0ϵ₁ϵ₂)
+//	Atan(±Inf) = (±Pi/2+0ϵ₁+0ϵ₂+NaNϵ₁ϵ₂)
 func Atan(d Number) Number {
 	if d.Real == 0 && d.E1E2mag == 0 {
 		return Number{
